@@ -24,17 +24,20 @@ MANIFEST = dict(
          "PrettyPrint for Expression, pretty_print_binop, with_parens, with_parens_liberal, call_syntax, temperature sugar), "
          "for EVERY printable typed expression of any depth the echoed tokens form a well-formed derivation tree of the "
          "documented grammar, hence by the C10 theorem the parser model accepts them and returns the tree they denote, "
-         "which (without temperature sugar / digit separators) is exactly the tree the expression was elaborated from; "
+         "which (without temperature sugar / digit separators) is exactly the tree the expression was elaborated from "
+         "(list and struct literals included); C15_fixed_point_partial — re-elaborating that tree in a session with the same "
+         "unit / function names gives a typed tree with the same echo (expressions without sugar and negative literals); "
          "(3) C15_reassociation_refuted — the excluded class (a sum or product on the right loses its parentheses) is real. "
          "NOT proved, checked on the implementation only (echo oracle: interpret, echo, re-interpret the echo in a clone of "
          "the session, compare acceptance, type, value to 1e-12, echo of the echo, and a probe expression): statements "
-         "(let/fn/unit/dimension/struct with inferred types, where-clauses, decorators), struct/list literals, "
-         "interpolated strings, the number formatter, elaboration of the temperature sugar, and the fixed-point clause.",
+         "(let/fn/unit/dimension/struct with inferred types, where-clauses, decorators), "
+         "interpolated strings, the number formatter, elaboration of the temperature sugar, type equality, and the "
+         "fixed-point clause outside the proved class.",
     design_ref="DESIGN.md §6 C15; design/syntax.md",
     note="Trusted: Coq kernel + vm_compute; the hand port of the expression printer in Syntax/TypedPrinter.v (tied on every run by "
          "comparing the tokens of the implementation's echo with the model's print of the intended typed tree) and of "
          "escape/strip in Syntax/StrEsc.v (strip_and_escape is also exercised by the C10 correspondence); the C10 parser model; "
-         "the generator's knowledge of how numbat elaborates its fully parenthesised sources. Six echo defects were repaired by "
+         "the generator's knowledge of how numbat elaborates its fully parenthesised sources. Seven echo defects were repaired by "
          "fix: commits, three are open findings (multi-name dimension types, implicit dimension of a base unit, product "
          "re-association not a fixed point).",
     technique="Coq proof (echo = concrete syntax tree; well-formedness by induction; reuse of the C10 round-trip theorem) + "
@@ -189,6 +192,11 @@ def known_for(case, r, what):
             continue
         if m.get("kind") == "echo-shape" and re.search(m["echo_regex"], r["echo"]):
             return f
+        if m.get("kind") == "base-unit-implicit-dimension":
+            # last line of the echo is `unit NAME: TYPE` with TYPE the camel-cased NAME
+            mm = re.search(r"(?:^|\n)unit (\w+): (\w+)$", r["echo"])
+            if mm and mm.group(2).lower() == mm.group(1).replace("_", "").lower():
+                return f
         if m.get("kind") == "times-only":
             # the two echoes differ only in explicit vs. juxtaposed multiplication, and the values agree
             strip = lambda s: re.sub(r"\s+", " ", s.replace("×", " "))
